@@ -174,6 +174,89 @@ mod introspect_support {
     }
 }
 
+pub mod codegen_support {
+    // Hand-written support for the generated code-generator corpus.
+    pub use serde_json::json;
+    use serde_json::Value;
+    pub use simnet::complete_or_stall;
+    use simnet::{ScriptSocket, Wire};
+    pub use xplore::Sink;
+    use zlink_core::Connection;
+
+    pub fn conn_with(replies: &[&str]) -> (Wire, Connection<ScriptSocket>) {
+        let wire = Wire::new(0, None);
+        for r in replies {
+            wire.arrive(r.as_bytes());
+            wire.arrive(&[0]);
+        }
+        let conn = wire.connection();
+        (wire, conn)
+    }
+    pub fn check(sink: &mut Sink<'_>, iface: &str, name: &str, ok: bool, detail: &str) {
+        if ok {
+            sink.pass(xplore::hash_of(&(iface, name)));
+        } else {
+            let kind = name.split(':').nth(1).unwrap_or(name).trim().replace(' ', "-");
+            sink.fail(format!("codegen:{kind}"), format!("interface {iface}, {name}: {detail}"), json!({"interface": iface, "check": name}));
+        }
+    }
+    /// A value of a generated type is built from JSON that uses the IDL's spellings and must encode
+    /// back to the same JSON.
+    pub fn round_trip<T: serde::de::DeserializeOwned + serde::Serialize + std::fmt::Debug>(sink: &mut Sink<'_>, iface: &str, what: &str, j: Value) {
+        match serde_json::from_value::<T>(j.clone()) {
+            Err(e) => sink.fail("codegen:idl-spelled-value-not-decodable", format!("interface {iface}, {what}: `{j}` does not decode as the generated type: {e}"), json!({"interface": iface, "check": what})),
+            Ok(v) => match serde_json::to_value(&v) {
+                Ok(back) if strip_nulls(&back) == strip_nulls(&j) => sink.pass(xplore::hash_of(&(iface, what))),
+                other => sink.fail("codegen:value-encodes-with-other-spellings", format!("interface {iface}, {what}: `{j}` decoded as {v:?} and encodes as {other:?}"), json!({"interface": iface, "check": what})),
+            },
+        }
+    }
+    fn strip_nulls(v: &Value) -> Value {
+        match v {
+            Value::Object(m) => Value::Object(m.iter().filter(|(_, x)| !x.is_null()).map(|(k, x)| (k.clone(), strip_nulls(x))).collect()),
+            Value::Array(a) => Value::Array(a.iter().map(strip_nulls).collect()),
+            x => x.clone(),
+        }
+    }
+    /// The one frame the generated proxy method wrote must be the call the IDL describes.
+    pub fn check_call(sink: &mut Sink<'_>, iface: &str, what: &str, wire: &Wire, expect: &Value) {
+        let bytes = wire.written();
+        let got: Option<Value> = if bytes.last() == Some(&0) && !bytes[..bytes.len() - 1].contains(&0) { serde_json::from_slice(&bytes[..bytes.len() - 1]).ok() } else { None };
+        match got {
+            Some(g) if &g == expect => sink.pass(xplore::hash_of(&(iface, what, "call"))),
+            Some(g) => {
+                let class = if g["method"] != expect["method"] { "codegen:wrong-method-name-on-the-wire" } else { "codegen:wrong-parameters-on-the-wire" };
+                sink.fail(class, format!("interface {iface}, {what}: sent `{g}`, the IDL says `{expect}`"), json!({"interface": iface, "check": what}))
+            }
+            None => sink.fail("codegen:not-exactly-one-call-frame", format!("interface {iface}, {what}: wrote `{}`", simnet::show(&bytes)), json!({"interface": iface, "check": what})),
+        }
+    }
+
+    #[allow(unused_imports, clippy::all)]
+    pub mod corpus {
+        use super::*;
+        include!(corpus_file!("codegen_corpus.rs"));
+    }
+}
+
+fn run_c15(tier: &str) -> i32 {
+    use codegen_support::corpus;
+    let mut rep = Report::new("C15", tier);
+    rep.rule = format!("generated corpus of {} interfaces (1..3 methods with 0..3 inputs and 0..2 outputs, 0..1 custom struct, 0..1 custom enum, 0..2 errors; names drawn from alphabets with acronyms (GetURL, HTTPGet, NotOK), digits (Get2FA, E2BIG), camelCase and snake_case fields and variants, Rust keywords (type, match, fn, async); 19 value types incl. optional, array, map, custom, inline struct/enum, object) run through /repo's zlink_codegen at build time and compiled; per interface: every custom type and error is built from IDL-spelled JSON and encoded back, every enum value likewise, every method is called through the generated proxy (frame compared with the IDL's method path, parameter names and JSON values; None arguments omitted), its reply decoded and re-encoded under the IDL's output names, its first declared error recognised. Distinct = distinct (interface, check) pairs", corpus::N_INTERFACES);
+    rep.assumptions = vec!["Rust-side names are never predicted: values are built from JSON, method function names are read positionally from the generated trait".into(), "interfaces are non-recursive and free of names that collide after case folding".into()];
+    rep.extra.insert("programs".into(), serde_json::json!(corpus::N_INTERFACES));
+    rep.require_goal("interface-exercised");
+    let cfg = Config { max_wall: std::time::Duration::from_secs(600), ..Default::default() };
+    rep.add(sweep("codegen-corpus", corpus::CASES.len() as u64, &cfg, |i, s| {
+        s.goal("interface-exercised");
+        if s.wants_sample() {
+            s.sample(|| serde_json::json!({"interface": corpus::IDLS[i as usize]}));
+        }
+        (corpus::CASES[i as usize])(s)
+    }));
+    rep.finish()
+}
+
 fn run_c16(tier: &str) -> i32 {
     let mut rep = Report::new("C16", tier);
     rep.rule = format!("generated corpus of {} derived types (structs with the Type and the CustomType derive over every supported field type: 20 leaf types, 11 wrappers/collections around every leaf, every pair of wrappers, depth-3 samples; 0..6 fields incl. raw identifiers; unit-variant enums; error enums with unit, struct and single-tuple variants; lifetimes; doc comments on types, fields and variants) compiled against /repo's derive macros; every derived TYPE / CUSTOM_TYPE / VARIANTS is compared deeply (names, order, Varlink types, comments) with the description the generator computes from its own model of the Rust type; interfaces assembled from derived descriptions are rendered and parsed back. Distinct = distinct (type, check) pairs", introspect_support::corpus::N_TYPES);
@@ -215,6 +298,7 @@ fn replay(path: &str) -> i32 {
     let class = v["class"].as_str().unwrap_or("");
     let st = match prop {
         "C12" => xplore::sweep_one("replay", idx, &Config { threads: 1, ..Default::default() }, |i, s| (proxy_support::corpus::CASES[i as usize])(s)),
+        "C15" => xplore::sweep_one("replay", idx, &Config { threads: 1, ..Default::default() }, |i, s| (codegen_support::corpus::CASES[i as usize])(s)),
         "C16" => xplore::sweep_one("replay", idx, &Config { threads: 1, ..Default::default() }, |i, s| (introspect_support::corpus::CASES[i as usize])(s)),
         _ => {
             eprintln!("MACHINERY: no replay handler for `{prop}`");
@@ -239,6 +323,7 @@ fn main() {
     let code = match args.first().map(|s| s.as_str()) {
         Some("c12") => run_c12(&tier),
         Some("c16") => run_c16(&tier),
+        Some("c15") => run_c15(&tier),
         Some("--replay") => replay(args.get(1).map(|s| s.as_str()).unwrap_or("")),
         _ => {
             eprintln!("usage: corpus c12 [--tier quick|thorough] | --replay <file>");
